@@ -40,6 +40,7 @@ pub struct Report {
     pub extra: Mutex<Map<String, J>>,
     pub caps_hit: Mutex<Vec<String>>,
     pub stop: AtomicBool,
+    pub has_sample: AtomicBool,
     pub machinery_errors: Mutex<Vec<String>>,
 }
 
@@ -64,6 +65,7 @@ impl Report {
             extra: Mutex::new(Map::new()),
             caps_hit: Mutex::new(vec![]),
             stop: AtomicBool::new(false),
+            has_sample: AtomicBool::new(false),
             machinery_errors: Mutex::new(vec![]),
         }
     }
@@ -97,9 +99,14 @@ impl Report {
     /// keep up to `cap` samples
     pub fn sample(&self, cap: usize, f: impl FnOnce() -> J) {
         let mut s = self.samples.lock().unwrap();
-        if s.len() < cap {
+        if s.len() < cap.max(1) {
             s.push(f());
+            self.has_sample.store(true, Ordering::Relaxed);
         }
+    }
+    /// true until the first sample has been recorded (so that every run, even a capped one, writes a sample)
+    pub fn no_sample_yet(&self) -> bool {
+        !self.has_sample.load(Ordering::Relaxed)
     }
     pub fn set(&self, k: &str, v: J) {
         self.extra.lock().unwrap().insert(k.to_string(), v);
